@@ -5,7 +5,7 @@ from harness import common, gen, api
 from harness.common import fhex, flist, ftable, ftable2, cbool
 
 LEVEL = "proof"
-IMPORTS = ["From MuxV Require Import Base.Num Base.Vec3 Base.FInst Model.Grid Model.GridF Model.QCurve Model.QCurveF Model.Reid Model.ReidF Model.Gather Model.GatherF."]
+IMPORTS = ["From MuxV Require Import Base.Num Base.Vec3 Base.FInst Model.Grid Model.GridF Model.QCurve Model.QCurveF Model.Kuchemann Model.KuchemannF Model.Reid Model.ReidF Model.Gather Model.GatherF."]
 
 
 # ------------------------------------------------------------------ grid correspondence
@@ -173,6 +173,29 @@ def qcurve_cases(chk, ac, a, cases, descr):
                 flist(spans), ftrip(got)))
             descr.append(dict(what="quarter-chord-curve", segment=seg.name, discont=disc))
             chk.count("qcurve=standard/%s/pieces=%d" % (seg.side, len(disc) - 1))
+        # the offset of the lifting line on Kuchemann's locus of aerodynamic centres (Model/Kuchemann.v): the stored table, bit for bit
+        lld = seg._getter_data.get("ll_offset")
+        if w.get("ll_offset") == "kuchemann" and isinstance(lld, np.ndarray) and lld.ndim == 2:
+            area = quad(lambda s_: seg.get_chord(s_), 0, 1)[0]
+            CLa = float(seg._airfoils[0].get_CLa(alpha=0.0))
+            sw0 = float(seg.get_sweep(0.0))
+            locs = [float(x) for x in lld[:, 0]]
+            chs = [float(x) for x in (np.array(seg.get_chord(np.array(locs)), dtype=float) * np.ones(len(locs)))]
+            s_ = abs(sw0)
+            RA = 2.0 * seg.b / area
+            q1 = CLa * math.cos(s_) / (math.pi * RA); p1 = q1 ** 2; p2 = (1 + p1) ** 0.25
+            se = s_ / p2
+            q2 = CLa * math.cos(se) / (math.pi * RA); p3 = q2 ** 2
+            ex = math.pi / (4.0 * (math.pi + 2.0 * abs(se)))
+            K = (1 + p3) ** ex
+            tck = [(s_, math.cos(s_)), (se, math.cos(se))]
+            ttk = [(se, math.tan(se))]
+            tpk = [(q1, 2.0, p1), (1 + p1, 0.25, p2), (q2, 2.0, p3), (1 + p3, ex, K)]
+            cases.append("chk_kuchemann %s %s %s %s %s %s %s %s %s %s" % (
+                ftable(tck), ftable(ttk), ftable2(tpk), fhex(math.pi), fhex(CLa), fhex(float(seg.b)), fhex(float(area)), fhex(sw0),
+                "[" + "; ".join("(%s, %s)" % (fhex(a_), fhex(b_)) for a_, b_ in zip(locs, chs)) + "]", flist([float(x) for x in lld[:, 1]])))
+            descr.append(dict(what="kuchemann-offset", segment=seg.name, sweep=sw0))
+            chk.count("kuchemann-offset=" + seg.side)
         # connection point
         c = w.get("connect_to", {})
         pid = c.get("ID", 0)
@@ -465,7 +488,7 @@ def run(chk):
         "nodes / control_points from quarter-chord point, ll_offset, chord and section angles",
         "independent oracle for the quarter-chord curve: scipy.quad integration of the documented curve (dx/ds=-b tan(sweep), dihedral rotating the "
         "span direction, connection point with mirrored y offset) written separately from the implementation",
-        "not modelled: the Kuchemann offset value, section unit vectors from np.gradient (checked finite only), callables; scipy.integrate.quad is an oracle"])
+        "correspondence: Model/Kuchemann.v on binary64 vs the stored table of Kuchemann offsets (bit-exact; cos, tan, float power as oracles); dihedral and sweep derived from quarter-chord points (bit-exact; arctan2, arctan, scalar square as oracles)", "not modelled: section unit vectors from np.gradient (checked finite only), callables; scipy.integrate.quad is an oracle"])
     rng = chk.rng
     cases, descr = [], []
     n = chk.q(40, 400)
